@@ -4,6 +4,7 @@
 package main
 
 import (
+	"bytes"
 	"fmt"
 	"math/big"
 	"reflect"
@@ -77,9 +78,36 @@ func feeWithChange(s txgen.TxSpec, q feegen.Quote, d dest) (*big.Int, bool) {
 	return q.Quoted(z.TotalStdBytes, z.TotalDataBytes), true
 }
 
+var histCount int
+
 func changeCase(kind string, s txgen.TxSpec, q feegen.Quote, d dest, hyp bool) {
 	tx := txgen.Build(s)
 	fq := q.Build()
+	// every third case the transaction object has a history: while one of its scripts had another size its
+	// size and fee were estimated, then the script was put back (an in-place edit keeping the counts);
+	// the change operation must work on the transaction as it is now
+	histCount++
+	if histCount%3 == 0 && q.Complete() {
+		common.Safely(func() {
+			if len(tx.Outputs) > 0 && histCount%2 == 0 {
+				o := tx.Outputs[len(tx.Outputs)-1]
+				orig := o.LockingScript
+				o.LockingScript = bscript.NewFromBytes(bytes.Repeat([]byte{0x51}, 600))
+				_, _ = tx.EstimateFeesPaid(fq)
+				_, _ = tx.EstimateSize()
+				_, _ = tx.EstimateIsFeePaidEnough(fq)
+				o.LockingScript = orig
+			} else if len(tx.Inputs) > 0 {
+				in := tx.Inputs[0]
+				orig := in.UnlockingScript
+				in.UnlockingScript = bscript.NewFromBytes(bytes.Repeat([]byte{0x51}, 300))
+				_, _ = tx.EstimateFeesPaid(fq)
+				_, _ = tx.EstimateSize()
+				in.UnlockingScript = orig
+			}
+		})
+		kind += "/estimated-before-an-in-place-edit"
+	}
 	tw := twin{kind, s, q, d}
 	var err error
 	pan, _ := common.Safely(func() { err = apply(tx, fq, d) })
@@ -425,6 +453,6 @@ func main() {
 	for _, j := range jobs {
 		changeCase(j.kind, j.s, j.q, j.d, j.hyp)
 	}
-	c.Stats.Rule = "grid: output counts {0,1,2,251,252,253,254} (identical P2PKH or data outputs; a mixed data/P2PKH pair for the small counts) x 9 quotes (1/20, 1/2, 1, 5, 50 sat/byte, unequal std/data) x 1..3 P2PKH inputs (some already signed) x destinations {address, P2PKH script, 1-byte, 200-byte, 252..300-byte, data script, existing index} x amount relations {insufficient, fee-1, =fee, fee+dust, fee+dust+1, ample} computed from the fee a change output would require (quick tier: at 252 and 253 outputs every quote x destination at fee+dust+1 (a 2-satoshi change output) and a third of them also at fee+dust (no change), at 251 and 254 a rotating third of the destinations; thorough: the full grid); plus bad address, index out of range / wrapping negative, nil or unsupported previous script, missing fee type, zero denominator, wrapping fee products and totals. distinct = distinct (tx, quote, destination); non-trivial = at least one input"
+	c.Stats.Rule = "grid: output counts {0,1,2,251,252,253,254} (identical P2PKH or data outputs; a mixed data/P2PKH pair for the small counts) x 9 quotes (1/20, 1/2, 1, 5, 50 sat/byte, unequal std/data) x 1..3 P2PKH inputs (some already signed) x destinations {address, P2PKH script, 1-byte, 200-byte, 252..300-byte, data script, existing index} x amount relations {insufficient, fee-1, =fee, fee+dust, fee+dust+1, ample} computed from the fee a change output would require (quick tier: at 252 and 253 outputs every quote x destination at fee+dust+1 (a 2-satoshi change output) and a third of them also at fee+dust (no change), at 251 and 254 a rotating third of the destinations; thorough: the full grid); plus bad address, index out of range / wrapping negative, nil or unsupported previous script, missing fee type, zero denominator, wrapping fee products and totals. every third case on a transaction object whose size and fee were estimated while one of its scripts had another size (in-place edit, counts unchanged). distinct = distinct (tx, quote, destination); non-trivial = at least one input"
 	c.Finish()
 }
